@@ -10,6 +10,60 @@ def add(pid, technique, text, note):
 add("C01", "reference-model monitor at the API boundary: get_info vs independent exhaustive/memoised best response over generated, structured and exhaustively enumerated games",
     "Held on every (game, profile) execution observed: hundreds of thousands of generated games per run plus every valid micro tree up to a bound, each judged by an oracle that shares no code with cfr. Exploration, not proof: it says nothing about tree shapes the generators cannot produce.",
     "Trusts the harness evaluator O1 (cross-checked against brute-force enumeration on each small game) and the stated input bounds.")
+add("C02", "reference-model monitor: returned total regret bound of solve(Full, vanilla) vs true regret from the independent best-response oracle O1, over games x budgets x thresholds x thread counts",
+    "Held on every observed solve: the returned total bound dominated the independently computed true regret (tolerance 1e-9 x payoff range), bounds were non-negative and max-consistent, and early-stopped runs really were below the threshold. Exploration over generated games and configurations.",
+    "Trusts O1; only the total bound is compared (the per-player comparison is not a theorem and not what the property states).")
+add("C03", "envelope monitor on measured true regret and returned bounds of solve(Full) against the finite-T CFR rate computed by the harness (D, N, A from its own tree)",
+    "Held on every observed solve: vanilla per-player bounds stayed below 2*D*N*sqrt(A)/sqrt(T) and the true regret of every preset stayed below the stated 6x envelope at every budget tried. 'Tends to zero' is restated as this finite-T envelope; no finite run decides the limit itself.",
+    "Trusts O1 and the harness's own count of infosets/actions/payoff range; unbounded eventuality restated as bounded envelope (DESIGN.md section 9).")
+add("C04", "envelope monitor with replication: true regret (O1) of Sampled/External outputs vs D*N*sqrt(A)/sqrt(T), exceedance must replicate on 11 of 21 fresh seeded sampling histories; aggregate medians over the run",
+    "Held on the observed sampling histories: no (game, configuration) exceeded the convergence envelope reproducibly, and the median regret across games fell far below the T=100 level at T=3000. Statistical statement with replication; one known finding (a chance infoset repeated on one path) is reported as KNOWN-FINDING.",
+    "Trusts O1 and hook H2 (seeded sampling feeds the production sampler from a deterministic RNG); the probabilistic statement is read as 'replicates on a majority of 21 fresh seeds'.")
+add("C05", "totality monitor around every solve call in supervised worker processes: panic/abort/deadlock(no-CPU-progress)/error-kind detection and well-formedness of the dense result (hook H1), over the full configuration grid incl. degenerate games and contended infosets",
+    "Held on every observed call: no panic, abort or deadlock witness; only the two documented error kinds and never with one thread; every returned probability vector was a distribution and every bound finite and non-negative (infinite only with zero iterations).",
+    "Dense vectors are read through hook H1 (public readers hide NaN/negative entries); deadlock is restated as bounded progress (no CPU consumed for 25 s inside a solve).")
+add("C06", "differential k-thread vs 1-thread runs of solve(Full) under jitter hooks (H5), oversubscription and repetition + offline O3 step checker with exactly-once visit monitor on every k-thread event log",
+    "Held on every observed k-thread run and schedule: output equal to the 1-thread run within rounding (margin/conditioning rule for regret-matching discontinuities) and every logged transition was the documented one with each decision node processed exactly once per pass. Schedules explored are those the pool produced; their number is measured and reported.",
+    "Trusts hooks H3-H5 (snapshots at quiescent points, jitter only between critical sections) and the O3 specification.")
+add("C07", "differential k-thread vs 1-thread runs of solve(Sampled|External) under pinned sampling decisions (hook H2 seeded/forced) and jitter + O3 step checker with exactly-once visit and one-draw-per-infoset-per-pass monitors",
+    "Held on every observed k-thread run: identical sampled tree, outputs equal within rounding to the 1-thread run, no worker panicked on a contended infoset, every decision node on the sampled tree processed exactly once.",
+    "Trusts hook H2 (seeded/forced sampling is a pure function of site, infoset and pass) and H3-H5.")
+add("C08", "offline trace-specification checker (O3 step checker) over per-iteration state snapshots, draws and visits logged by hooks H1-H4, for all methods, parameter tuples incl. 0 and +-inf, presets vs documented tuples",
+    "Held on every logged solve: each traversal increment, discount, regret-matching step (as a relation over allowed tie-breaks), average weighting, bound and termination step was the documented one, starting each step from the library's own logged state so errors cannot compound.",
+    "Trusts the O3 specification (written from the papers and RegretParams docs; shares no code with the solvers) and hook snapshots.")
+add("C09", "differential monitor: thresholded run must be bit-identical (1 thread) to the budget-t* run of the same code, thresholds placed at/next-above/next-below each observed bound; pass count from hook H3 as second witness",
+    "Held on every observed (game, method, params, budget, threshold): the solve stopped exactly at the first iteration whose max bound was strictly below the threshold (or at the budget), incl. NaN/negative/infinite thresholds and the unbounded-budget idiom.",
+    "Sampled methods use hook H2 seeded sampling so that the budget-t runs share sampling decisions; k>1 compared within rounding with a don't-care band at the threshold.")
+add("C10", "event-log checker over hook H2/H3/H4 logs + direct queries of the production multinomial sampler with chosen variates: interval membership, one draw per (infoset, pass), presented weights = declared/current distribution, Hoeffding/Azuma frequency bounds",
+    "Held on every observed draw and pass: the sampler returned the outcome whose cumulative interval contains the variate, every infoset was drawn at most once per pass and redrawn in the next, all nodes of a chance infoset followed the shared outcome, presented weights matched declared chance weights / the opponent's current strategy, and empirical frequencies stayed inside 1e-12-tail concentration bounds.",
+    "Trusts hooks H2-H4; statistical bounds have per-test false-alarm probability 1e-12.")
+add("C11", "reference-model monitor: from_root verdict vs independent rule-set validator O2 over valid generated trees, every documented rule violated once (G4 mutations), and bounded-exhaustive micro trees; accepted trees cross-checked by O1/solve",
+    "Held on every observed tree: accepted iff the reference validator finds no documented rule violated, the reported error kind is one of the violated rules, no panic; one benign acceptance is a listed known finding.",
+    "Trusts O2 (order-independent definitions of the documented rules, with a don't-care band for nearly-equal chance probabilities).")
+add("C12", "metamorphic monitor: original vs transformed presentation (weight scaling, degenerate-node padding, renaming, payoff scaling/shift, player swap) compared through the name bijection, bit-exact where arithmetic is identical, else within measured-conditioning tolerance",
+    "Held on every observed (game, transformation): evaluation and deterministic solver output were invariant (bit-identical for exact transformations; within rounding otherwise, where the tolerance is derived from the logged traces' regret-matching margins and average-strategy conditioning).",
+    "Trusts the harness's name bijection and hook H3 traces for the margin/conditioning rule.")
+add("C13", "reference-model monitor of as_named() vs independent named-view spec O4 + iterator-contract monitor (len() before every next()) + from_named round trip",
+    "Held on every observed (game, profile): each infoset listed exactly once, exactly the positive-probability actions summing to 1, single-action infosets as (action, 1), exact-size iterators correct at every prefix, and from_named(as_named(s)) == s.",
+    "Expectations are built from dense vectors via hook H1.")
+add("C14", "reference-model monitor of from_named/from_named_eq vs 40-line import spec O4 over mutated named strategies (duplicates, missing/extra infosets, illegal actions, hostile weights) + differential between the two import paths",
+    "Held on every observed candidate: Ok iff the reference finds no violated rule, error kind among the violated rules, probabilities = weight/total, both import paths agree; one overflow corner is a listed known finding.",
+    "Trusts O4.")
+add("C15", "end-to-end monitor of the shipped (hook-free) cfr binary on generated JSON and Gambit files: printed strategies re-evaluated on the harness's own semantic tree by O5/O1 and compared with every printed number",
+    "Held on every observed run of the binary: exit 0, well-formed JSON, strategies are distributions over the file's names, printed utilities and regrets equal the independent evaluation of the printed strategies for each player (constant-sum offsets included).",
+    "Trusts the harness's file writers and evaluator; the file is never read back through cfr's parsers.")
+add("C16", "differential monitor: shipped cfr binary vs library solve with the parameters the help text assigns to each option (bit-exact for -m full -p 1), input/output path and format equivalences, behavioural signatures for sampled methods, clip rule via O1",
+    "Held on every observed invocation: each option value produced the library result for the documented meaning; stdin/-i, stdout/-o, auto/explicit format and JSON/Gambit encodings agreed; sampled methods showed their distinguishing signatures.",
+    "Library side runs with hooks compiled in but disabled (numerics unchanged); sampled methods in the hook-free binary are judged by behavioural signatures, not exact values.")
+add("C17", "end-to-end negative monitor of the shipped binary: systematic corruptions of valid files (truncation, field/type damage, non-finite/non-positive numbers, player count, constant-sum perturbation, name clashes, every contract violation) classified by O2/O5; exit status, stdout emptiness and diagnostic category observed",
+    "Held on every observed corrupted input: non-zero exit, no solution object on stdout or in the -o file, a diagnostic of the documented category, no crash by signal; inputs whose validity the documentation does not settle are counted as don't-care.",
+    "Trusts the harness's classification of each corruption; 0.5x-tolerance perturbations are required to be accepted.")
+add("C18", "reference-model monitor of truncate(h) on dense vectors (hook H1) vs set/renormalisation spec, thresholds at and around every distinct probability, NaN and +-inf; idempotence; result re-read through as_named/get_info",
+    "Held on every observed (profile, threshold): result is a valid profile, survivors are exactly the actions above the threshold renormalised (an infoset with no survivor is left valid), thresholds below every positive probability change nothing, truncation is idempotent outside a 1e-12 band.",
+    "Dense vectors read via hook H1.")
+add("C19", "algebraic-law monitor at the API boundary: range, identity, positivity, symmetry and panic conditions of distance() over generated profile pairs and exponents, panics observed via catch_unwind in workers",
+    "Held on every observed (pair, p): components in [0,1] for p>=1, zero on identical profiles, positive on different ones, symmetric, panics exactly for different games / non-positive p; the p<1 range overflow is a listed known finding.",
+    "NaN exponent grouped with the documented non-positive case.")
 
 NOT_APPLICABLE = []
 
